@@ -42,6 +42,8 @@ J sched_json(Rng &r, const std::string &tier, int n_tasks_hint, bool want_fn_yie
 	int jit = r.chance(700) ? 0 : (int) r.range(1, 3000);
 	s.set("jitter_us", jit);
 	{ uint64_t g = r.below(100); s.set("grid_us", jit ? 1 : g < 45 ? 5000 : g < 60 ? 1000 : 1); }
+	// descheduling fault at lock / unlock points (one run in three), never during the start-up handshake (its probe windows are legitimate timeouts)
+	if (r.chance(330)) { static const int mx[] = {200, 5000, 12000, 30000}; s.set("preempt_permille", (int) r.range(3, 60)); s.set("preempt_max_us", mx[r.below(4)]); s.set("preempt_from_ms", 4300); }
 	s.set("epoch_phase_us", (long long) r.below(1000000));
 	return s;
 }
@@ -60,6 +62,9 @@ static sim::SchedParams parse_sched(const J &plan) {
 	p.starve_for_us = (uint64_t) s.geti("starve_for_ms", 0) * 1000;
 	p.jitter_us = (uint32_t) s.geti("jitter_us", 0);
 	p.grid_us = (uint32_t) s.geti("grid_us", 1);
+	p.preempt_permille = (uint32_t) s.geti("preempt_permille", 0);
+	p.preempt_max_us = (uint32_t) s.geti("preempt_max_us", 0);
+	p.preempt_from_us = (uint64_t) s.geti("preempt_from_ms", 0) * 1000;
 	p.epoch0_us = 1700000000ULL * 1000000ULL + (uint64_t) s.geti("epoch_phase_us", 0);
 	p.max_steps = (uint64_t) s.geti("max_steps", 4000000);
 	p.max_time_us = (uint64_t) s.geti("max_time_s", 900) * 1000000ULL;
@@ -109,6 +114,8 @@ void Engine::setup_bus() {
 	bus.auto_answer = b.getb("auto_answer", true);
 	const J &af = b["answer_faults"];
 	for (size_t i = 0; i < af.size(); i++) bus.answer_faults[(uint64_t) af[i][0].num()] = bus::fault_from(af[i][1]);
+	const J &tdl = b["type_delays"];
+	for (size_t i = 0; i < tdl.size(); i++) bus.type_delays[(int) tdl[i][0].num()] = {(uint64_t) tdl[i][1].num(), (uint64_t) tdl[i][2].num() * 1000};
 	const J &sw = b["slow_writes"];
 	for (size_t i = 0; i < sw.size(); i++) bus.slow_writes[(uint64_t) sw[i][0].num()] = (uint64_t) sw[i][1].num();
 }
